@@ -515,8 +515,10 @@ def check_C12(ctx, tier, seed):
     if tier != "quick":
         big_jobs.append(side.submit(lambda: run_sim(ctx, b, ["hashfile-big", "--dir", scratch, "--variant", (seed + 2) % 5, "--total", 4224281216])[1]))
     sim_batch(ctx, vd, "default", b, "c12", n)
-    lb = build(ctx, "lowmem")
+    extra_bins = build_many(ctx, ["lowmem", "rel_unsafe"])
+    lb = extra_bins["lowmem"]
     sim_batch(ctx, vd, "lowmem", lb, "c12", n // 4)
+    sim_batch(ctx, vd, "rel_unsafe", extra_bins["rel_unsafe"], "c12", n // 4)
     for i in range(1 if tier == "quick" else 16):
         code, rep, err = run_sim(ctx, b, ["hashfile", "--dir", scratch, "--seed", seed + i])
         vd.add("default", rep)
@@ -555,8 +557,9 @@ def check_C03(ctx, tier, seed):
         jobs.append(side.submit(lambda: run_sim(ctx, b, ["c03big", "--variant", (seed + 1) % 5, "--pattern", "a40e", "--seed", seed + 1, "--total", (1 << 31) + (1 << 29) + 77])[1]))
     sim_batch(ctx, vd, "default", b, "c03", n)
     # the reduced-memory feature set (low-memory buckets, single tables, minimal hex tables): same histories, fewer of them
-    lb = build(ctx, "lowmem")
-    sim_batch(ctx, vd, "lowmem", lb, "c03", n // 3)
+    extra_bins = build_many(ctx, ["lowmem", "rel_unsafe", "m_static_sse2"])
+    for k in ("lowmem", "rel_unsafe", "m_static_sse2"):
+        sim_batch(ctx, vd, k, extra_bins[k], "c03", n // 4)
     for j in jobs:
         vd.add("default", j.result())
     vd.extra["components_real"] = ["Generator<T>::new/update/finalize_with_options/processed_len/clone for the five variants (public API only, no hook)"]
